@@ -25,7 +25,7 @@ import z3
 import toasty.toast as tt
 from toasty.pyramid import Pos
 from toasty.toast import Tile, ToastCoordinateSystem
-from vlib import decy
+from vlib import core, decy
 from vlib.core import HarnessError
 
 Pt = z3.DeclareSort("Pt4")
@@ -341,7 +341,9 @@ def routes_symbolic(depth, planetary):
         v = tt._equ_to_xyz(c[1], c[0])
         k = tuple(int(round(float(u) * 1e9)) for u in v)
         if k not in consts:
-            consts[k] = OP(z3.Const("L1_%d" % len(consts), Pt))
+            # named by the point itself: the same sky point is the same constant in every run of this process, so
+            # that state kept between calls (caches) for another coordinate system or route shows up as a mismatch
+            consts[k] = OP(z3.Const("L1_%d_%d_%d" % k, Pt))
         return consts[k]
 
     l1 = [Tile(t.pos, tuple(opaque(c) for c in t.corners), t.increasing) for t in real_l1]
@@ -395,7 +397,13 @@ def routes_concrete(depth, planetary):
     for pos, t in full.items():
         s = tt.create_single_tile(pos, coordsys=cs)
         f = filt.get(pos)
-        for name, o in (("generate_tiles", t), ("generate_tiles_filtered", f)):
+        ul, ur, lr, ll = s.corners
+        ce = tt.mid(ll, ur) if s.increasing else tt.mid(ul, lr)
+        looked = tt.toast_tile_for_point(pos.n, ce[1], ce[0], coordsys=cs)
+        routes = [("generate_tiles", t), ("generate_tiles_filtered", f)]
+        if looked.pos == pos:        # the look-up of the tile's own centre (its correctness is C12's subject)
+            routes.append(("toast_tile_for_point", looked))
+        for name, o in routes:
             n += 1
             if o is None or o.increasing != s.increasing or not all(float(a[0]) == float(b[0]) and float(a[1]) == float(b[1]) for a, b in zip(o.corners, s.corners)):
                 bad.append((tuple(pos), name))
@@ -483,20 +491,41 @@ def check(run):
                       "import sys\nsys.exit(1)\n", "E4:euf")
     else:
         run.ob("neighbour-step", "inconclusive", "E4:euf", str(fails[:3]), queries=nq, solver_s=tq)
-    # 5
+    # 5 — in forked processes: module-level state left behind by the symbolic obligations above (opaque points) must not
+    # reach the route comparison, and state the library itself keeps between calls must show up in it
     depth = 2 if run.tier == "quick" else 3
-    for planetary in (False, True):
-        tag = "planetary" if planetary else "astronomical"
-        t0 = time.time()
-        mism, ncmp = routes_symbolic(depth, planetary)
-        badc, nc = routes_concrete(depth + 2, planetary)
-        if mism or badc:
-            run.violation("routes-%s" % tag, "toast.py:routes:%s" % tag, "tile geometry depends on the construction route: symbolic %r, concrete %r" % (mism[:3], badc[:3]),
-                          "import sys\nsys.path.insert(0, %r)\nimport props.C04 as P\nb = P.routes_concrete(%d, %r)\nprint(b[0][:5])\nm = P.routes_symbolic(%d, %r)\nprint(m[0][:5])\nsys.exit(1 if (b[0] or m[0]) else 0)\n" % (
-                              str(__import__("vlib.core").core.VERIF), depth + 2, planetary, depth, planetary), "E4:euf+execution")
+    core.run_parallel(run, __name__, "job_routes", [("symbolic", depth), ("concrete", depth + 2)], timeout_s=1500)
+
+
+def _routes_pass(kind, depth, planetary):
+    try:
+        return routes_symbolic(depth, planetary) if kind == "symbolic" else routes_concrete(depth, planetary)
+    except Exception as e:      # a route that raises is a route that disagrees
+        return [("raised", "%s: %s" % (type(e).__name__, e))], 0
+
+
+def routes_history(kind, depth):
+    """astronomical, planetary, astronomical again: every route is also exercised AFTER the other coordinate system has
+    been used in the same process (state kept between calls must not leak into the geometry)."""
+    out = []
+    for planetary, again in ((False, ""), (True, ""), (False, "-after-planetary")):
+        bad, n = _routes_pass(kind, depth, planetary)
+        out.append((("planetary" if planetary else "astronomical") + again, bad, n))
+    return out
+
+
+def job_routes(run, kind, depth):
+    t0 = time.time()
+    for tag, bad, n in routes_history(kind, depth):
+        nm = "routes-%s-%s" % (kind, tag)
+        if bad:
+            run.violation(nm, "toast.py:routes:%s" % tag, "tile geometry depends on the construction route or on what was built before (%s comparison, depth %d): %r" % (kind, depth, bad[:3]),
+                          "import sys\nsys.path.insert(0, %r)\nimport props.C04 as P\nres = P.routes_history(%r, %d)\nfor tag, bad, n in res:\n    print(tag, n, bad[:5])\nsys.exit(1 if any(b for _t, b, _n in res) else 0)\n" % (
+                              str(core.VERIF), kind, depth), "E4:euf" if kind == "symbolic" else "execution")
         else:
-            run.ob("routes-%s" % tag, "unsat", "E4:euf", "%d symbolic comparisons (identical corner terms / orientation) to depth %d + %d exact comparisons of the real doubles to depth %d" % (ncmp, depth, nc, depth + 2),
-                   queries=ncmp, solver_s=time.time() - t0)
+            run.ob(nm, "unsat" if kind == "symbolic" else "confirmed", "E4:euf" if kind == "symbolic" else "execution",
+                   "%d comparisons of the four routes to depth %d (%s)" % (n, depth, "identical corner terms / orientation" if kind == "symbolic" else "identical doubles"),
+                   queries=n if kind == "symbolic" else 0, solver_s=time.time() - t0)
 
 
 def _div4_concrete_gap():
